@@ -109,10 +109,22 @@ func main() {
 			panic(fmt.Sprintf("replay design rejected: %v %s", oc.Err, oc.Panic))
 		}
 	}
+	// design 1: the hand-written covering design (catch-alls, verb families, aliases as parameters, Any, extremes)
+	var cov *tierb.Built
+	if rp == nil {
+		cov, _ = b.Add(coveringDesign(), extract)
+		if cov == nil || cov.GenErr != "" {
+			panic("the covering design was not accepted / generated: " + fmt.Sprint(cov))
+		}
+	}
 	opts := designgen.DefaultOptions()
 	opts.Security = false // credentials are C06's business
-	for i := 0; len(b.Items) < nDesigns+1 && i < nDesigns*3; i++ {
+	opts.ExoticVerbs = true
+	for i := 0; len(b.Items) < nDesigns+2 && i < nDesigns*3; i++ {
 		d := designgen.Random(rng.Fork(), opts, i)
+		wr := rng.Fork()
+		widenAliasParams(wr, d)
+		widenCatchAll(wr, d)
 		bu, _ := b.Add(d, extract)
 		if bu == nil {
 			res.Count("design_rejected")
@@ -133,10 +145,10 @@ func main() {
 		x.st = rt.Step{ID: len(xs), Design: bu.Key, Service: s.Name, Method: m.Name}
 		x.ci = caseInfo{Prop: *prop, Stream: stream, Design: d, Service: s.Name, Method: m.Name, Payload: payload, Result: result, Expect: expect}
 		if m.Payload != nil && payload != nil {
-			x.st.Payload = d.ToTree(&m.Payload.T, payload)
+			x.st.Payload = toTreeX(d, &m.Payload.T, payload)
 		}
 		if m.Result != nil && result != nil {
-			x.st.Result = d.ToTree(&m.Result.T, result)
+			x.st.Result = toTreeX(d, &m.Result.T, result)
 			if isViewed(d, m) && m.ResultView == "" {
 				x.st.View = "default"
 			}
@@ -182,9 +194,23 @@ func main() {
 			s, m := findMethod(wit.Design, "", wc.Method)
 			add(wit, s, m, "witness", wc.Payload, wc.Result, wc.Expect)
 		}
-		for _, bu := range b.Items[1:] {
+		if cov.Dropped {
+			// C01's business in general, but the covering design compiles on the baseline: a change broke it
+			res.Fail("fixed/covering-design-does-not-compile", "the generated code of the hand-written covering design does not compile: "+cov.BuildErr, map[string]any{"design": cov.Design})
+		} else {
+			for _, wc := range coveringFixed(*prop) {
+				s, m := findMethod(cov.Design, "", wc.Method)
+				add(cov, s, m, "fixed", wc.Payload, wc.Result, "")
+			}
+			for _, wc := range coveringWitness(*prop) {
+				s, m := findMethod(cov.Design, "", wc.Method)
+				add(cov, s, m, "witness", wc.Payload, wc.Result, wc.Expect)
+			}
+		}
+		for _, bu := range b.Items[2:] {
 			if bu.Dropped {
 				res.Count("design_dropped_build")
+				res.Extra["last_build_error"] = bu.BuildErr
 				continue
 			}
 			d := bu.Design
@@ -231,6 +257,15 @@ func main() {
 								res.Count("exchange_skipped_value_outside_wire_safe")
 								continue
 							}
+						}
+						if m.Payload != nil && pv != nil {
+							pv = enrichAny(d, rng, &m.Payload.T, pv, 0, stream == "hostile")
+							if cv := catchAllVar(m); cv != "" && pv.K == "object" {
+								pv.Set(cv, catchAllValue(rng))
+							}
+						}
+						if m.Result != nil && rv != nil {
+							rv = enrichAny(d, rng, &m.Result.T, rv, 0, stream == "hostile")
 						}
 						add(bu, s, m, stream, pv, rv, "")
 					}
@@ -301,6 +336,52 @@ func main() {
 				res.Sample(map[string]any{"method": ci.Method, "payload": ci.Payload, "wire": ob.Req}, 3)
 			} else {
 				res.Sample(map[string]any{"method": ci.Method, "result": ci.Result, "wire": ob.Resp}, 3)
+			}
+		}
+	}
+	// every non-first route of an endpoint, through raw requests carrying what the generated client produced
+	if *prop == "C02" {
+		var alt []rt.Step
+		altOf := map[int]*exchange{}
+		next := len(steps)
+		for _, x := range xs {
+			if x.ci.Stream == "witness" {
+				continue
+			}
+			for _, st := range altRouteSteps(x, obs[x.st.ID], func() int { next++; return next - 1 }) {
+				alt = append(alt, st)
+				altOf[st.ID] = x
+			}
+		}
+		if len(alt) > 0 {
+			aobs, err := b.Run(alt)
+			if err != nil {
+				panic(err)
+			}
+			for _, st := range alt {
+				x, ob := altOf[st.ID], aobs[st.ID]
+				if ob == nil || ob.SetupErr != "" {
+					res.Count("alt_route_setup_err")
+					continue
+				}
+				res.Count("alt_route_exchanges")
+				res.Evaluations++
+				d, mm := x.ci.Design, x.m
+				in := map[string]any{"prop": x.ci.Prop, "stream": x.ci.Stream, "design": d, "service": x.ci.Service, "method": x.ci.Method,
+					"payload": x.ci.Payload, "raw_request": st.Raw, "wire_response": ob.Resp}
+				if ob.Invoked != 1 {
+					res.Fail(fmt.Sprintf("%s/alt-route-not-delivered:%d", x.ci.Stream, statusOf(ob)),
+						fmt.Sprintf("the request the generated client builds, sent to route %s %s of the same endpoint, did not reach the service method (status %d)", st.Raw.Method, st.Raw.Target, statusOf(ob)), in)
+					continue
+				}
+				if mm.Payload != nil {
+					got := fromTreeX(d, &mm.Payload.T, ob.Got)
+					want := withDefaults(d, &mm.Payload.T, x.ci.Payload)
+					if !got.Equal(want) {
+						in["received"], in["expected"] = got, want
+						res.Fail(x.ci.Stream+"/alt-route-payload-changed", fmt.Sprintf("through route %s %s the service method received %s, the client was given %s", st.Raw.Method, st.Raw.Target, got, want), in)
+					}
+				}
 			}
 		}
 	}
@@ -536,18 +617,18 @@ func evaluate(prop string, x *exchange, ob *rt.Obs) (sig, what string, extra map
 			extra["client_error"] = ob.ClientErr
 			s := fmt.Sprintf("valid-request-not-delivered:%d", statusOf(ob))
 			if x.ep != nil && m.Payload != nil {
-				s = classifyRequest(x.ep, ci.Payload, nil, nil, ob)
+				s = classifyRequest(x.ep, ci.Payload, nil, nil, ob, nil)
 			}
 			return s, fmt.Sprintf("a payload satisfying the design did not reach the service method (invoked %d times, status %d): %s", ob.Invoked, statusOf(ob), ci.Payload), extra
 		}
 		if m.Payload != nil {
-			got := d.FromTree(&m.Payload.T, ob.Got)
+			got := fromTreeX(d, &m.Payload.T, ob.Got)
 			want := withDefaults(d, &m.Payload.T, ci.Payload)
 			if !got.Equal(want) {
 				extra["received"], extra["expected"] = got, want
 				s := "payload-changed:" + diffClass(d, &m.Payload.T, want, got)
 				if x.ep != nil {
-					s = classifyRequest(x.ep, ci.Payload, want, got, ob)
+					s = classifyRequest(x.ep, ci.Payload, want, got, ob, anyIn(d, m.Payload))
 				}
 				return s, fmt.Sprintf("service method received %s, the client was given %s", got, want), extra
 			}
@@ -569,7 +650,7 @@ func evaluate(prop string, x *exchange, ob *rt.Obs) (sig, what string, extra map
 		extra["client_error"] = ob.ClientErr
 		s := "valid-result-not-delivered:" + ob.ClientErr.Name
 		if x.ep != nil && m.Result != nil {
-			s = classifyResponse(x.ep, sel, ci.Result, nil, nil, ob)
+			s = classifyResponse(x.ep, sel, ci.Result, nil, nil, ob, nil)
 		}
 		return s, fmt.Sprintf("client returned error %s: %s for a result satisfying the design: %s", ob.ClientErr.Name, ob.ClientErr.Message, ci.Result), extra
 	}
@@ -577,13 +658,13 @@ func evaluate(prop string, x *exchange, ob *rt.Obs) (sig, what string, extra map
 		if ci.View != "" || m.ResultView != "" {
 			return "", "", extra // views are C08's business
 		}
-		got := d.FromTree(&m.Result.T, ob.ClientResult)
+		got := fromTreeX(d, &m.Result.T, ob.ClientResult)
 		want := withDefaults(d, &m.Result.T, ci.Result)
 		if !got.Equal(want) {
 			extra["received"], extra["expected"] = got, want
 			s := "result-changed:" + diffClass(d, &m.Result.T, want, got)
 			if x.ep != nil {
-				s = classifyResponse(x.ep, sel, ci.Result, want, got, ob)
+				s = classifyResponse(x.ep, sel, ci.Result, want, got, ob, anyIn(d, m.Result))
 			}
 			return s, fmt.Sprintf("client returned %s, the service returned %s", got, want), extra
 		}
@@ -596,6 +677,24 @@ func evaluate(prop string, x *exchange, ob *rt.Obs) (sig, what string, extra map
 		}
 	}
 	return "", "", extra
+}
+
+// anyIn tells, per top-level attribute of a payload / result, whether its type holds an Any.
+func anyIn(d *designgen.Design, a *designgen.Attr) func(string) bool {
+	return func(name string) bool {
+		if a == nil {
+			return false
+		}
+		if name == "" {
+			return containsAny(d, &a.T, 0)
+		}
+		for _, f := range d.AllFields(&a.T) {
+			if f.Name == name {
+				return containsAny(d, &f.A.T, 0)
+			}
+		}
+		return false
+	}
 }
 
 func statusOf(ob *rt.Obs) int {
